@@ -103,15 +103,19 @@ func classify(got, want string) string {
 
 func TestC12(t *testing.T) {
 	ev := vlib.NewEvidence("C12", "exploration",
-		"random operation histories (length 10..60) over node ids {n1..n4,\"\",x:y}, accounts {A,B,\"\"}, amounts {0,±1,±2^64,±10^30,..}; each history runs on the memory and the badger driver and on an executable model of the documented contract; non-trivial = at least 3 successful mutating operations; distinct = distinct operation sequences")
+		"random operation histories (length 10..60) over node ids {n1..n4,\"\",x:y}, accounts {A,B,\"\"} and (every third history) production-style ids: 128-hex node ids in lower/upper/0x spelling and checksummed wallet addresses sharing a 12-character prefix, amounts {0,±1,±2^64,±10^30,..}; each history runs on the memory and the badger driver and on an executable model of the documented contract; non-trivial = at least 3 successful mutating operations; distinct = distinct operation sequences")
 	ev.Assume("time classes stay ≥10 s away from the 120 s activity window and ≥30 s from the 15 min nonce window; histories taking >5 s wall are discarded as inconclusive")
 	n := vlib.Scale(5000, 150000)
-	alpha := vlib.DefaultAlphabet()
+	alphaDefault, alphaReal := vlib.DefaultAlphabet(), vlib.RealisticAlphabet()
 	var opMu sync.Mutex
 	opCount := map[string]int64{}
 	parallelCases(n, 12, func(i int) {
 		r := vlib.Rand("C12", i)
 		length := 10 + r.Intn(51)
+		alpha := alphaDefault
+		if i%3 == 2 {
+			alpha = alphaReal // production-style ids: 128-hex node ids in three spellings, wallet addresses with a common prefix
+		}
 		ops := make([]vlib.StoreOp, length)
 		desc := ""
 		for j := range ops {
